@@ -172,7 +172,10 @@ DoSolveStress(e) ==
   /\ e.ev = "SolveStress"
   /\ LET raised == e.raised # ""
          empty == [fails |-> {}, kf |-> {}, hits |-> {}, rejected |-> FALSE]
-         usable == ~raised /\ fm # None
+         \* values outside the fixed-point range of the oracle (|v| >= 1900) cannot be judged: rejected input;
+         \* lsq_linear is specified for consistent systems only (truth of the generator)
+         outOfScope == ~raised /\ ((e.finite /\ ~e.in_range) \/ (e.opts.method = "lsq_linear" /\ ~env.consistent_truth))
+         usable == ~raised /\ fm # None /\ ~outOfScope
          c05 == IF usable /\ (Want("C05") \/ Want("C16")) THEN C05Solve(e) ELSE empty
          c01 == IF usable /\ Want("C01") /\ e.finite THEN C01Solve(e) ELSE empty
          c16 == IF usable /\ Want("C16") /\ e.finite THEN C16Solve(e) ELSE empty
@@ -183,8 +186,8 @@ DoSolveStress(e) ==
          fixStress == raised /\ e.opts.method = "fix_stress"
      IN EmitV(e, c05f \cup c16r \cup c01.fails \cup c16.fails \cup c03.fails \cup SetIf(raised /\ ~fixStress, "SOLVE.raised"),
               c01.kf \cup c03.kf \cup (IF Want("C05") THEN c05.kf ELSE {}) \cup SetIf(fixStress, "KF_FixStress:SOLVE.raised"),
-              c05.hits \cup c01.hits \cup c16.hits \cup c03.hits, {}, c01.rejected \/ c03.rejected)
-  /\ sol' = IF e.raised # "" \/ fm = None \/ ~e.finite THEN None
+              c05.hits \cup c01.hits \cup c16.hits \cup c03.hits, {}, c01.rejected \/ c03.rejected \/ outOfScope)
+  /\ sol' = IF e.raised # "" \/ fm = None \/ ~e.finite \/ ~e.in_range THEN None
             ELSE [lam |-> BestLambda(fm.rows, e.b, XR(e)),
                   contaminated |-> KF_FarFromOrigin(env, bo.fit) \/ \E k \in DOMAIN fm.rows : \E i \in InternalEndingAt(m, fr, fm.rows[k].v) :
                          LET q == PhysOf(env, fr.ifaces[i]) IN q # 0 /\
